@@ -4,6 +4,7 @@ set -e
 export CARGO_NET_OFFLINE=true GOPROXY=off PIP_NO_INDEX=1
 export PATH="$PATH:/root/.cargo/bin:/opt/veriftools/lean/bin"
 cd "$(dirname "$0")/.."
+for i in 0 1 2 3 4 5 6 7; do mkdir -p harness/gc/gc$i/src/gen; [ -f harness/gc/gc$i/src/gen/root.rs ] || echo "fn main() {}" > harness/gc/gc$i/src/gen/root.rs; done
 ( cd harness && cargo build --offline )
 ./harness/target/debug/zv extract /repo lean/ZeepVerif/Generated
 ( cd lean && lake build ZeepVerif zvdrv zvspec )
